@@ -78,6 +78,20 @@ def run_bayer(W, cfg):
     img = W.array([[[W.real(f'ph_{w}_{i}_{j}') for j in range(nc)] for i in range(nr)] for w in range(nw)])
     q = {c: [W.real(f'q{c}{w}') for w in range(nw)] for c in 'RGB'}
     waves = [500, 600]
+    def int_cube_ok():
+        import numpy as _np
+        Dt = W.lentil.detector
+        base = (_np.arange(nw * nr * nc).reshape(nw, nr, nc) * 7) % 10 + 1
+        qr, qg, qb = _np.array([0.35, 0.6]), _np.array([0.55, 0.2]), _np.array([0.15, 0.85])
+        for fl in (True, False):
+            ref = Dt.collect_charge_bayer(base.astype(float), waves, qr, qg, qb, pat, oversample=os, flatten=fl)
+            for dt in ('int64', 'int32', 'uint16'):
+                got_ = Dt.collect_charge_bayer(base.astype(dt), waves, qr, qg, qb, pat, oversample=os, flatten=fl)
+                if not all(_np.allclose(_np.asarray(g_, dtype=float), _np.asarray(r_, dtype=float), rtol=1e-12, atol=1e-12) for g_, r_ in zip(_np.atleast_3d(got_) if fl else got_, _np.atleast_3d(ref) if fl else ref)):
+                    return False
+        mono = Dt.collect_charge(base.astype('int32'), waves, qg)
+        return bool(_np.allclose(_np.asarray(mono, dtype=float), _np.asarray(Dt.collect_charge(base.astype(float), waves, qg), dtype=float), rtol=1e-12, atol=1e-12))
+    W.ob_concrete('photon cubes of whole counts held as integers collect the same charge as the same counts held as floats', int_cube_ok)
     as_given = {'lower': pat.lower(), 'mixed': ''.join(ch.lower() if n % 2 else ch for n, ch in enumerate(pat))}.get(cfg.get('case'), pat)
     got = lt.detector.collect_charge_bayer(img, waves, W.array(q['R']), W.array(q['G']), W.array(q['B']), as_given, oversample=os, flatten=cfg['flatten'])
 
